@@ -1,0 +1,48 @@
+//go:build verif
+
+// Contracts for block reference counting and the upload closures of the
+// block-device backed block (properties C01, C04). Comment-only file.
+package local
+
+// released(pb): number of Release calls made on block object pb.
+//@ ghost released(ref) int
+
+//@ func (*blockDeviceBackedBlock).Release
+//@   requires pb.usecount >= 1 && pb.blockAllocator != nil && held(pb.blockAllocator.lock) == 0
+//@   requires len(pb.blockAllocator.freeOffsets) <= 1000000000
+//@   modifies released(pb), pb.usecount, pb.blockAllocator.freeOffsets
+//@   exitghost released(pb) := old(released(pb)) + 1
+//@   ensures [never-negative] c >= 0
+//@   ensures [freed-iff-last] (c == 0) <==> len(pb.blockAllocator.freeOffsets) == old(len(pb.blockAllocator.freeOffsets)) + 1
+//@   ensures [kept-otherwise] c != 0 ==> len(pb.blockAllocator.freeOffsets) == old(len(pb.blockAllocator.freeOffsets))
+//@   ensures [freed-offset] c == 0 ==> pb.blockAllocator.freeOffsets[len(pb.blockAllocator.freeOffsets) - 1] == pb.deviceOffsetSectors
+//@   ensures [once] released(pb) == old(released(pb)) + 1
+
+// The writer closure: copies the buffer into the region, flushes the last
+// sector, and gives up the writer's block reference exactly once on every path.
+//@ func (*blockDeviceBackedBlock).Put$1
+//@   requires wrInv(w) && written(w) == 0 && wSize(w) == bsize(b) && b != nil
+//@   requires pb.usecount >= 1 && pb.blockAllocator != nil && held(pb.blockAllocator.lock) == 0
+//@   requires len(pb.blockAllocator.freeOffsets) <= 1000000000
+//@   modifies released(pb), written(w), fields(w), pb.usecount, pb.blockAllocator.freeOffsets,
+//@            devLo(w.blockAllocator.blockDevice), devHi(w.blockAllocator.blockDevice), devLast(w.blockAllocator.blockDevice)
+//@   ensures [released-once] released(pb) == old(released(pb)) + 1
+//@   ensures [inside-region] devLo(w.blockAllocator.blockDevice) >= min(old(devLo(w.blockAllocator.blockDevice)), old(regionLo(w)))
+//@         && devHi(w.blockAllocator.blockDevice) <= max(old(devHi(w.blockAllocator.blockDevice)), old(regionHi(w)))
+//@   ensures [copied-or-error] err == nil ==> written(w) == wSize(w)
+
+//@ func (*blockDeviceBackedBlock).Put$1$1
+//@   ensures [offset] result0 == writeOffsetBytes
+//@   ensures [error-propagated] (result1 == nil) <==> (err == nil)
+
+// A reader's Close gives up the reader's reference exactly once.
+//@ func (*blockDeviceBackedBlockReader).Close
+//@   requires r.block != nil && r.block.usecount >= 1 && r.block.blockAllocator != nil && held(r.block.blockAllocator.lock) == 0
+//@   requires len(r.block.blockAllocator.freeOffsets) <= 1000000000
+//@   ensures [released-once] released(old(r.block)) == old(released(r.block)) + 1
+//@   ensures [detached] r.block == nil
+
+//@ func (*blockDeviceBackedBlock).Get
+//@   requires pb.usecount >= 1 && blkInv(pb)
+//@   requires [inside-block] 0 <= offsetBytes && 0 <= sizeBytes
+//@         && offsetBytes + sizeBytes <= pb.blockAllocator.blockSectorCount * pb.blockAllocator.sectorSizeBytes
